@@ -4,22 +4,36 @@ C08 -- Loop and iterator restructuring preserves results.
 Space (bounded-exhaustive, nothing sampled): every program of the loop grammar
 in mc/engine/progen_c08.py (families F for-loops, W while-loops, R any/all
 reductions, E zip/enumerate comprehensions; bodies that accumulate into outer
-variables, reassign the loop target, mutate the iterated list, return early,
-nest a second loop; user names colliding with the generated temporaries)
+variables, reassign the loop target, mutate the iterated list in place, rebind
+its name, return early, nest a second loop; zip / enumerate / enumerate(zip)
+with tuple, whole-tuple, discarded and nested targets; reductions whose element
+can raise or has a side effect, in every syntactic position; user names that are
+the generated temporaries `t n i m j _src _i acc b` and their numbered forms;
+loops under narrow ambient rounding contexts)
   x every strategy instance {unroll_for(times 1-4, PEEL|STRICT), unroll_while
     (times 1-3), split(factor 1-4, the argument `k`, the free variable `KF`,
-    PEEL|STRICT), elim_iter(4 switch settings), fuse}
-  x every site selection {None, each index, each cursor from strategies.sites}
-  x every input list length 0..9 (x k in 1..4 for the variable factor).
+    PEEL|STRICT), elim_iter(4 switch settings), fuse} (thorough: also caller-
+    chosen temporary names equal to user names)
+  x site selection {None, each index, each cursor from strategies.sites}
+    (quick: index/cursor only for times=2 and factor=3 -- selection does not
+    depend on the count)
+  x every input list length 0..9 (programs with a nested loop, whose cost is
+    quadratic: 0..6 and 8), x k in 1..4 for the variable factor (quick: 1, 3).
 
 Oracle: metamorphic.  f(args) versus T(f)(args), compared by deep same-value
 (tuples/lists element-wise, booleans as booleans, numbers by value with NaN equal
 to NaN and zeros by sign); judged only where the original returns.  STRICT is
 judged only where its precondition holds for every loop it was applied to
 (length divisible by the factor; lengths are computed exactly from the input
-length because the grammar never rebinds a list); otherwise
-`precondition_false`.  A loop whose length the check cannot name (`range(x)`)
-under STRICT is `inconclusive` when it disagrees, never a violation.
+length because the grammar only mutates lists in place or rebinds them to lists
+of the same length); otherwise `precondition_false`.  A loop whose length the
+check cannot name (`range(x)`) under STRICT is `inconclusive` when it disagrees,
+never a violation.  A transformed program that raises, or exceeds a CPU-time
+limit (twice), where the original returns is a violation; so is a strategy that
+raises instead of yielding a program (except STRICT's documented refusals).
+
+Quick = a fixed core of the thorough space (same for every seed) + every m-th
+remaining program starting at VERIF_SEED mod m.
 """
 
 from __future__ import annotations
